@@ -1,6 +1,6 @@
 //! C12 — ratio and chunk-size controls accept exactly the documented ranges.
-use crate::cfg::{config_strategy, CfgSpace, Config, Kind};
-use crate::dynres::{ErrKind, SampleX};
+use crate::cfg::{build_vec, config_strategy, CfgSpace, Config, Kind};
+use crate::dynres::{ErrKind, SampleX, ViaVec};
 use crate::engine::{Aggregate, Outcome, Property, Tier};
 use crate::hist::{call_cost, HistOpts, Interp, Op, Path, Step, StepRes, Trace};
 use crate::signal::Signal;
@@ -33,6 +33,10 @@ pub struct Case {
     pub cfg: Config,
     pub seed: u64,
     pub ctls: Vec<Ctl>,
+    /// the controlled instance is driven through `Box<dyn VecResampler>` (its twin stays direct); chunk-size
+    /// controls are not part of that trait and are skipped
+    #[serde(default)]
+    pub via_vec: bool,
 }
 
 pub struct C12;
@@ -81,15 +85,21 @@ fn same<T: SampleX>(a: &Step<T>, b: &Step<T>) -> bool {
 
 fn run_t<T: SampleX>(c0: &Case) -> Outcome {
     let mut o = Outcome::default();
-    let (cfg, excl) = c0.cfg.sanitized();
+    let (mut cfg, excl) = c0.cfg.sanitized();
     for l in excl {
         o.class(l);
+    }
+    if c0.via_vec {
+        // the boxed resampler comes from the plain constructor: the twin must use the same kernel
+        cfg.kernel = crate::cfg::Kernel::Dispatch;
+        o.class("controlled instance through Box<dyn VecResampler>");
     }
     let kind = cfg.kind;
     o.class(format!("kind:{}", kind.name()));
     let opts = HistOpts { envelope: true, record_out: true, quant32: false, stop_on_err: true };
     let sig = Signal::Noise { seed: c0.seed, amp: 1.0 };
-    let (mut a, mut b) = match (Interp::<T>::new(&cfg, &opts), Interp::<T>::new(&cfg, &opts)) {
+    let first = if c0.via_vec { build_vec::<T>(&cfg).map(|b| Interp::from_res(&cfg, &opts, Box::new(ViaVec(b)))) } else { Interp::<T>::new(&cfg, &opts) };
+    let (mut a, mut b) = match (first, Interp::<T>::new(&cfg, &opts)) {
         (Ok(a), Ok(b)) => (a, b),
         _ => {
             o.fail(format!("construct-rejected:{}", kind.name()), "constructor rejected a valid configuration");
@@ -158,6 +168,7 @@ fn run_t<T: SampleX>(c0: &Case) -> Outcome {
                     // twin receives nothing
                 }
             }
+            Ctl::Chunk { .. } if c0.via_vec => continue,
             Ctl::Chunk { class, frac } => {
                 let max = cfg.chunk;
                 let size = match class % 7 {
@@ -283,8 +294,8 @@ impl Property for C12 {
         sp.max_channels = 2;
         // exact stratum: dyadic original and max, where quotient and bound tests cannot disagree
         let exact = (-4i32..=4, 0i32..=4).prop_map(|(a, b)| (2f64.powi(a), 2f64.powi(b)));
-        (config_strategy(sp), any::<u64>(), proptest::collection::vec(ctl, 1..=10), prop_oneof![3 => Just(None), 1 => exact.prop_map(Some)], prop_oneof![2 => Just(None), 1 => (1.0f64..16.0).prop_map(Some)])
-            .prop_map(|(mut cfg, seed, ctls, exact, mr)| {
+        (config_strategy(sp), any::<u64>(), proptest::collection::vec(ctl, 1..=10), prop_oneof![3 => Just(None), 1 => exact.prop_map(Some)], prop_oneof![2 => Just(None), 1 => (1.0f64..16.0).prop_map(Some)], prop_oneof![4 => Just(false), 1 => Just(true)])
+            .prop_map(|(mut cfg, seed, ctls, exact, mr, via_vec)| {
                 if let Some((r, m)) = exact {
                     cfg.ratio = r;
                     cfg.max_rel = m;
@@ -294,7 +305,7 @@ impl Property for C12 {
                 while call_cost(&cfg) * 24.0 > 3e6 && cfg.chunk > 1 {
                     cfg.chunk = (cfg.chunk / 2).max(1);
                 }
-                Case { cfg, seed, ctls }
+                Case { cfg, seed, ctls, via_vec }
             })
             .boxed()
     }
